@@ -731,3 +731,50 @@ Proof. exact (C02_cover_from_start_x2_partial (cfgo true) eq_refl eq_refl two_ou
 Example C02_two_out_computed :
   exists w' k' r', run_ops (cfgo true) two_out_ops = Some (w', k', r') /\ length (k_watches k') = 2%nat /\ pend r' = None.
 Proof. eexists _, _, _. split; [vm_compute; reflexivity|]. split; reflexivity. Qed.
+
+(* ================================================================== bursts of file-level operations *)
+(* Several FILE-LEVEL operations (the class [burst_ok] of C03_burst_files_contract: touch, write, chmod of a file, unlink, file
+   renames - nothing that creates, removes or renames a directory) applied back to back from a synchronised state, then
+   everything read - in one read, or on the Pipeline model in reads cut arbitrarily with any ticks / queue_events calls before
+   the final delay: the reader / kernel state is synchronised (RSync) and every directory is covered again.  Side condition:
+   no record coalesced by the kernel across an operation border.  The "bursts" gap of C02_step_full is thereby narrowed to
+   bursts that contain a directory operation. *)
+Require Import WD.Model.Pipeline WD.Proofs.ContractProofs WD.Proofs.ReplayProofs WD.Proofs.TieProofs WD.Proofs.ReplaceProofs WD.Proofs.CutsPipeProofs WD.Proofs.SoundLooseProofs WD.Proofs.BurstProofs WD.Proofs.BurstReplayProofs.
+
+Theorem C02_burst_files_cover : forall C w k r ops,
+  c_faults C = [] -> c_fix_moveout C = true -> c_mask C = WATCHDOG_ALL ->
+  RSync C w k r -> burst_ok C w ops ->
+  let KB := fst (burst_end k w ops) in let wn := snd (burst_end k w ops) in
+  k_queue KB = concat (seq_qs k w ops) ->
+  exists r' raws, read_batch C (w_fs wn) (r, drainq KB, []) (k_queue KB) = Done (r', drainq KB, raws) /\
+    RSync C wn (drainq KB) r' /\ Cover C (w_fs wn) (drainq KB) r'.
+Proof. exact burst_files_cover. Qed.
+Print Assumptions C02_burst_files_cover.
+
+Theorem C02_burst_files_cover_pipeline : forall P s ops cuts L, pc_filter P = None -> let C := pc_reader P in
+  c_faults C = [] -> c_fix_moveout C = true -> c_mask C = WATCHDOG_ALL ->
+  RSync C (p_world s) (p_k s) (p_r s) -> buffer_idle (p_buf s) -> p_stopped s = false ->
+  (forall id, In id (map fst (p_tbl s)) -> (id < p_next s)%N) ->
+  burst_ok C (p_world s) ops ->
+  let KB := fst (burst_end (p_k s) (p_world s) ops) in
+  k_queue KB = concat (seq_qs (p_k s) (p_world s) ops) ->
+  CutsPipeProofs.sum cuts = length (k_queue KB) -> Forall tick_or_emit L ->
+  exists nit s' obs, prun P s (burst_hist P ops cuts L nit) [] = Done (s', obs) /\
+    p_world s' = snd (burst_end (p_k s) (p_world s) ops) /\
+    RSync C (p_world s') (p_k s') (p_r s') /\ Cover C (w_fs (p_world s')) (p_k s') (p_r s') /\
+    buffer_idle (p_buf s') /\ p_stopped s' = false.
+Proof. exact burst_files_cover_pipeline. Qed.
+Print Assumptions C02_burst_files_cover_pipeline.
+
+(* instance: see C01_burst_files_nonvacuous (the burst of six file-level operations on /s/R; RSync and Cover hold after it) *)
+Example C02_burst_files_nonvacuous :
+  exists r0 k0, construct (cfgx true true) kinit (w_fs rp_world) = Some (r0, k0) /\
+    let KB := fst (burst_end k0 rp_world burst_ops) in let wn := snd (burst_end k0 rp_world burst_ops) in
+    k_queue KB = concat (seq_qs k0 rp_world burst_ops) /\
+    exists r' raws, read_batch (cfgx true true) (w_fs wn) (r0, drainq KB, []) (k_queue KB) = Done (r', drainq KB, raws) /\
+      length raws = 11%nat /\
+      (forall x, alookup beqb x (replay true pR (tree_of true pR rp_world) (delivered (cfgx true true) false wn raws))
+               = alookup beqb x (tree_of true pR wn)) /\
+      RSync (cfgx true true) wn (drainq KB) r' /\ Cover (cfgx true true) (w_fs wn) (drainq KB) r' /\
+      flookup bf_ef (w_fs wn) = None /\ fexists bf_oa (w_fs wn) = true.
+Proof. exact burst_replay_example. Qed.
